@@ -51,6 +51,18 @@ type Chain struct {
 	GenesisFork           Fork
 	Genesis               common.BeaconState // copy of the genesis state
 
+	// FollowCodeSyncCommittee selects how the generator deals with the /repo defect that the live epochs
+	// context never rotates its sync committees (EpochsContext.RotateEpochs type-asserts the
+	// UpgradeableBeaconState wrapper, see the package comment).
+	//   false (default): blocks are correct by the consensus spec. After slot processing the generator
+	//     reloads the sync committees of the epochs context from the state (counted in Counters.EpcRepairs);
+	//     sync aggregates are signed by the state's current sync committee. A block that the plain
+	//     common.StateTransition refuses for no other reason than its stale epochs context is validated
+	//     through ProcessSlots + reload + PostSlotTransition instead (Step.PlainRejected, Counters.PlainRejected).
+	//   true: blocks are what the real code accepts as it is: the sync aggregate is signed by whatever the
+	//     live epochs context calls the current sync committee (stale after the first real rotation).
+	FollowCodeSyncCommittee bool
+
 	// Policy steers what NextSlot(nil) and the random parts of NextSlot(opts) do. Change it at any time.
 	Policy Policy
 	// Counters accumulate what happened so far.
@@ -380,10 +392,17 @@ type Step struct {
 	// the payload (capella+; nil before).
 	ExpectedWithdrawals []common.Withdrawal
 	EngineCalls         []EngineCall // calls made while the block was applied (verification run if enabled)
-	Verified            bool         // the block went through common.StateTransition(..., validateResult=true) on Pre
+	Verified            bool         // the block went through the real transition with validateResult=true on Pre
+	// EpcRepaired: after slot processing the epochs context's sync committees differed from the state's and
+	// were reloaded from the state (only when Chain.FollowCodeSyncCommittee is false).
+	EpcRepaired bool
+	// PlainRejected: the plain common.StateTransition(Pre, PreEpc, block, true) refused this spec-valid
+	// block (stale sync committees in the epochs context); it was validated with the reload in between.
+	PlainRejected bool
 
-	spec *common.Spec
-	gvr  common.Root
+	spec   *common.Spec
+	gvr    common.Root
+	repair bool
 }
 
 // Envelope builds the envelope of the step's block for common.StateTransition on a copy of step.Pre.
@@ -405,15 +424,71 @@ func envelopeFor(spec *common.Spec, gvr common.Root, preBlock common.BeaconState
 	return b.Envelope(spec, f.CurrentVersion, gvr)
 }
 
-// Apply runs the real common.StateTransition for block b on a copy of step.Pre with a fresh epochs context
-// and full validation; it returns the post-state or the rejection error. Panics are not recovered here.
+// Transition is common.StateTransition, optionally (repair) with the sync committees of the epochs context
+// reloaded from the state between slot processing and block processing.
+func Transition(ctx context.Context, spec *common.Spec, epc *common.EpochsContext, st *beacon.StandardUpgradeableBeaconState,
+	env *common.BeaconBlockEnvelope, validate, repair bool) error {
+	if !repair {
+		return common.StateTransition(ctx, spec, epc, st, env, validate)
+	}
+	if err := common.ProcessSlots(ctx, spec, epc, st, env.Slot); err != nil {
+		return err
+	}
+	if _, err := RepairSyncCommittees(epc, st); err != nil {
+		return err
+	}
+	return common.PostSlotTransition(ctx, spec, epc, st, env, validate)
+}
+
+// RepairSyncCommittees makes the sync-committee part of an epochs context agree with the state (altair+); it
+// reports whether anything had to change. It is what EpochsContext.RotateEpochs fails to do when it is
+// handed the StandardUpgradeableBeaconState wrapper.
+func RepairSyncCommittees(epc *common.EpochsContext, s common.BeaconState) (changed bool, err error) {
+	if u, ok := s.(*beacon.StandardUpgradeableBeaconState); ok {
+		s = u.BeaconState
+	}
+	ss, ok := s.(common.SyncCommitteeBeaconState)
+	if !ok {
+		return false, nil
+	}
+	oc, on := epc.CurrentSyncCommittee, epc.NextSyncCommittee
+	if err := epc.LoadSyncCommittees(ss); err != nil {
+		return false, err
+	}
+	same := func(a, b *common.IndexedSyncCommittee) bool {
+		if a == nil || b == nil || len(a.Indices) != len(b.Indices) {
+			return false
+		}
+		for i := range a.Indices {
+			if a.Indices[i] != b.Indices[i] {
+				return false
+			}
+		}
+		return true
+	}
+	return !same(oc, epc.CurrentSyncCommittee) || !same(on, epc.NextSyncCommittee), nil
+}
+
+// Apply runs the real state transition for block b on a copy of step.Pre with a fresh epochs context and
+// full validation; it returns the post-state or the rejection error. It uses the same treatment of the
+// epochs context's sync committees as the chain the step comes from (see Chain.FollowCodeSyncCommittee).
+// Panics are not recovered here.
 func (s *Step) Apply(b *SignedBlock) (common.BeaconState, error) {
+	return s.apply(b, s.repair)
+}
+
+// ApplyPlain is Apply with nothing but common.StateTransition.
+func (s *Step) ApplyPlain(b *SignedBlock) (common.BeaconState, error) {
+	return s.apply(b, false)
+}
+
+func (s *Step) apply(b *SignedBlock, repair bool) (common.BeaconState, error) {
 	st := WrapState(s.Pre)
 	epc, err := FreshEpc(s.spec, st)
 	if err != nil {
 		return nil, err
 	}
-	if err := common.StateTransition(context.Background(), s.spec, epc, st, s.EnvelopeOf(b), true); err != nil {
+	if err := Transition(context.Background(), s.spec, epc, st, s.EnvelopeOf(b), true, repair); err != nil {
 		return nil, err
 	}
 	return st.BeaconState, nil
@@ -445,12 +520,17 @@ func (c *Chain) NextSlot(o *SlotOpts) (step *Step, err error) {
 	}
 	ctx := context.Background()
 	slot := c.Slot() + 1
-	step = &Step{Slot: slot, Pre: CopyState(c.State), PreEpc: c.Epc.Clone(), spec: c.Spec, gvr: c.GenesisValidatorsRoot}
+	step = &Step{Slot: slot, Pre: CopyState(c.State), PreEpc: c.Epc.Clone(), spec: c.Spec, gvr: c.GenesisValidatorsRoot, repair: !c.FollowCodeSyncCommittee}
 
 	work := WrapState(c.State)
 	wepc := c.Epc.Clone()
 	if err := common.ProcessSlots(ctx, c.Spec, wepc, work, slot); err != nil {
 		return nil, fmt.Errorf("ProcessSlots(%d): %w", slot, err)
+	}
+	if step.repair {
+		if step.EpcRepaired, err = RepairSyncCommittees(wepc, work); err != nil {
+			return nil, err
+		}
 	}
 	step.PreBlock, step.PreBlockEpc = CopyState(work), wepc.Clone()
 	step.Fork = ForkOfState(work.BeaconState)
@@ -501,7 +581,14 @@ func (c *Chain) NextSlot(o *SlotOpts) (step *Step, err error) {
 		mark = c.Engine.Mark()
 		v := WrapState(step.Pre)
 		vepc := step.PreEpc.Clone()
-		if err := common.StateTransition(ctx, c.Spec, vepc, v, step.Envelope(), true); err != nil {
+		err := common.StateTransition(ctx, c.Spec, vepc, v, step.Envelope(), true)
+		if err != nil && step.repair && step.EpcRepaired {
+			step.PlainRejected = true
+			c.Engine.truncate(mark)
+			v, vepc = WrapState(step.Pre), step.PreEpc.Clone()
+			err = Transition(ctx, c.Spec, vepc, v, step.Envelope(), true, true)
+		}
+		if err != nil {
 			return nil, fmt.Errorf("slot %d (%s): %w by StateTransition with validation: %v [ops: %s]", slot, step.Fork, ErrNotAccepted, err, opSummary(step.Ops))
 		}
 		if r := v.HashTreeRoot(tree.GetHashFn()); r != step.PostRoot {
